@@ -31,7 +31,11 @@ func main() {
 	}
 	code := 0
 	func() {
-		defer os.RemoveAll(scratchDir)
+		if os.Getenv("GOVC_KEEP") == "" {
+			defer os.RemoveAll(scratchDir)
+		} else {
+			fmt.Println("scratch:", scratchDir)
+		}
 		switch os.Args[1] {
 		case "debug":
 			code = cmdDebug(os.Args[2:])
@@ -56,7 +60,28 @@ func cmdDebug(args []string) int {
 	_ = fs.Parse(args[1:])
 	r := NewRun("debug", "quick", 0)
 	r.Budget = *budget
-	if strings.HasSuffix(args[0], ".peg") {
+	if strings.HasPrefix(args[0], "schema:") {
+		files, err := writeSchemas(scratchDir+"/schemas", strings.TrimPrefix(args[0], "schema:"), 0)
+		if err != nil {
+			fmt.Println(err)
+			return 2
+		}
+		for _, sf := range files {
+			gp, err := Generate(sf.Name, sf.Path, strings.Fields(*optsFlag))
+			if err != nil {
+				fmt.Println("generate:", sf.Name, trunc(err.Error(), 2000))
+				continue
+			}
+			var only map[string]bool
+			if *fn != "" {
+				only = map[string]bool{}
+				for _, k := range strings.Split(*fn, ",") {
+					only[k] = true
+				}
+			}
+			gp.verifyClosures(r, only)
+		}
+	} else if strings.HasSuffix(args[0], ".peg") {
 		// debug <grammar.peg> [-o "-inline -switch"] [-f Rule,...]
 		gp, err := Generate("dbg", args[0], strings.Fields(*optsFlag))
 		if err != nil {
